@@ -35,7 +35,7 @@ def ill_typed(prog):
 
 
 def run(tier, seed, replay=None):
-    chk = core.Check("C09", tier, seed, "metamorphic")
+    chk = core.Check("C09", tier, seed, "translation_validation")
     env = Env()
     env.build_all()
     rnd = random.Random(seed)
